@@ -234,13 +234,13 @@ check('C15',
       'min / max select, for EVERY non-empty list of normalised phases with counts up to 2^52, an element whose exact two-part value is within '
       '2^-50 cycles of the exact minimum / maximum (C15_argmin, C15_argmax, C15_min, C15_max; hence the exact index when the extremum is '
       'separated by more than that) although the single-double approx they go through is off by up to half a cycle; argsort / sort return every '
-      'index / element exactly once for every list; a smaller rounded cycle implies a strictly smaller exact value; the second key '
-      '(self - approx).cycle is finite and within 2^-51 of the exact remainder, so argsort / sort put integer-count phases (|count| <= 2^51 - 3) in '
-      'exact order up to 2^-50 cycles at every pair of positions (C15_argsort_perm, C15_sort_perm, C15_cycle_order_exact, C15_remainder, '
+      'index / element exactly once for every list; and since repair D26 (sort by the two stored doubles) the key order IS the order of the exact '
+      'values on normalised phases (integer count, |frac| <= 1/2: what C07 proves every operation returns), so argsort / sort put the phases in EXACT '
+      'order at every pair of positions, however close, at any count (C15_argsort_perm, C15_sort_perm, C15_key_order_exact, '
       'C15_argsort_ordered, C15_sort_ordered). Parsing (exact arithmetic, '
       'axiom-free): for every digit string and every exponent the digit shuffling of _parse_string preserves the decimal value '
-      '(count + fraction = digits * 10^e) and the count is integral whenever the exponent is absorbed. PARTIAL: ptp, ties below 2^-50, sort for counts '
-      'between 2^51 and 2^52 (Model/PhaseOrd.v), the float-level parser and from_string, and to_string.do_format incl. CPython\'s '
+      '(count + fraction = digits * 10^e) and the count is integral whenever the exponent is absorbed. PARTIAL: ptp, ties of argmin / argmax below 2^-50 '
+      '(Model/PhaseOrd.v), the float-level parser and from_string, and to_string.do_format incl. CPython\'s '
       'float(str), repr(float) and fixed-point formatting (exact-arithmetic models in Model/DecStr.v) are tied to the code by the '
       'correspondence run - every case evaluated by vm_compute and compared index for index, bit for bit, character for character - and '
       'decided by the exact-rational monitor (order of exact values; |parsed - decimal value| <= 2^-52; printed string = exact value '
